@@ -168,8 +168,10 @@ def run(sid, only=None):
     summary = {"id": sid, "target_property": prop, "setup_ok": setup_ok, "detected_by_target_check": results.get(prop, {}).get("violation", False),
                "detected_by": [p for p, r in results.items() if r["violation"]], "harness_errors": [p for p, r in results.items() if r["rc"] not in (0, 1)],
                "tier": "quick", "wall_s": round(wall, 1), "checks": results}
-    if only is None:
-        json.dump(summary, open(os.path.join(d, "result.json"), "w"), indent=1)
+    if only is not None:
+        summary["checks_run"] = list(only)
+        summary["note"] = "only the listed checks were run (applied to /repo itself, then reverted)"
+    json.dump(summary, open(os.path.join(d, "result.json"), "w"), indent=1)
     print(sid, "target", prop, "detected_by", summary["detected_by"], "harness_errors", summary["harness_errors"], f"{wall:.0f}s")
     return summary
 
